@@ -553,7 +553,7 @@ func (c *Ctx) checkFinallyKeys(r *Report, rule, rel string) {
 							return
 						}
 						stored = true
-						if cs.Common().Args[1] != passed && !sameExpr(cs.Common().Args[1], passed) {
+						if cs.Common().Args[1] != passed && !sameExpr(cs.Common().Args[1], passed) && !sameCallExpr(cs.Common().Args[1], passed) {
 							okAll = false
 							detail = fmt.Sprintf("%s stores the transaction under %s but its completion deletes %s", fnKey(g), exprStr(cs.Common().Args[1]), exprStr(passed))
 						}
